@@ -35,6 +35,8 @@ var zzC14Catalogue = []zzAttrSpec{
 	/* 16 */ {`title="static-t"`, "title"},
 	/* 17 */ {`:style="{margin: zv, zIndex: iv, color: bv}"`, ":style"},
 	/* 18 */ {`style=""`, "style"},
+	/* 19 */ {`v-text="tx"`, "v-text"},
+	/* 20 */ {`v-html="hx"`, "v-html"},
 }
 
 // VerifC14_Attrs: differential against a reference attribute evaluator
@@ -43,23 +45,6 @@ var zzC14Catalogue = []zzAttrSpec{
 func VerifC14_Attrs() {
 	nAttrs := zzBound("attrs", 2, 3)
 	construct := zzChoice("construct", 4)
-	sv := []string{"", "ab"}[zzChoice("sv", 2)]
-	tv := zzBool("tv")
-	bkind := zzChoice("bkind", 4)
-	var bv any
-	bvStr, bvTruthy := "", false
-	switch bkind {
-	case 0:
-		bv, bvStr, bvTruthy = 3, "3", true
-	case 1:
-		bv, bvStr, bvTruthy = 0, "0", false
-	case 2:
-		bv, bvStr, bvTruthy = true, "true", true
-	case 3:
-		bv, bvStr, bvTruthy = "word", "word", true
-	}
-	data := map[string]any{"sv": sv, "iv": 7, "fv": false, "zv": 0, "tv": tv, "cv": "dyn", "bv": bv, "ok": true, "no": false, "items": []int{1}}
-
 	var picked []int
 	seen := map[string]bool{}
 	var src strings.Builder
@@ -84,6 +69,43 @@ func VerifC14_Attrs() {
 		picked = append(picked, k)
 		src.WriteString(" " + spec.src)
 	}
+	// the values are chosen only when a picked attribute reads them
+	uses := func(ks ...int) bool {
+		for _, p := range picked {
+			for _, k := range ks {
+				if p == k {
+					return true
+				}
+			}
+		}
+		return false
+	}
+	sv := "ab"
+	if uses(1, 2) {
+		sv = []string{"", "ab"}[zzChoice("sv", 2)]
+	}
+	tv := true
+	if uses(9, 12) {
+		tv = zzBool("tv")
+	}
+	bkind := 0
+	if uses(15, 17) {
+		bkind = zzChoice("bkind", 4)
+	}
+	var bv any
+	bvStr, bvTruthy := "", false
+	switch bkind {
+	case 0:
+		bv, bvStr, bvTruthy = 3, "3", true
+	case 1:
+		bv, bvStr, bvTruthy = 0, "0", false
+	case 2:
+		bv, bvStr, bvTruthy = true, "true", true
+	case 3:
+		bv, bvStr, bvTruthy = "word", "word", true
+	}
+	data := map[string]any{"sv": sv, "iv": 7, "fv": false, "zv": 0, "tv": tv, "cv": "dyn", "bv": bv, "ok": true, "no": false, "items": []int{1}, "tx": "TEXT", "hx": "<u>H</u>"}
+
 	var body string
 	switch construct {
 	case 0:
@@ -221,6 +243,16 @@ func VerifC14_Attrs() {
 	sort.Strings(gotNames)
 	zzNote("wantNames", strings.Join(wantNames, ","))
 	zzAssert(strings.Join(gotNames, ",") == strings.Join(wantNames, ","), "C14.attrs.names")
+	// content directives replace the element's content and leave its attributes alone
+	switch {
+	case has(19) && has(20):
+	case has(19):
+		zzAssert(strings.Contains(out, ">TEXT</p>"), "C14.attrs.v-text-content")
+	case has(20):
+		zzAssert(strings.Contains(out, "<u>H</u>"), "C14.attrs.v-html-content")
+	default:
+		zzAssert(strings.Contains(out, ">T</p>"), "C14.attrs.content-kept")
+	}
 	for n, v := range want {
 		zzAssert(got[n] == v, "C14.attrs.value")
 	}
